@@ -115,6 +115,26 @@ theorem thenK_append {X : Type} (filter : σ → Tag → Bool → Nat → Option
 theorem hdrs_pos (t : Tree) : 1 ≤ hdrs t := by
   cases t <;> simp [hdrs]
 
+mutual
+/-- number of values in a tree -/
+def nodes : Tree → Nat
+  | .prim _ _ => 1
+  | .cons _ _ kids => nodesL kids + 1
+def nodesL : List Tree → Nat
+  | [] => 0
+  | t :: ts => nodes t + nodesL ts
+end
+
+mutual
+/-- the trace has exactly one entry per value: the filter is called once for each -/
+theorem preorder_length : ∀ (t : Tree) (d : Nat), (preorder t d).length = nodes t
+  | .prim _ _, _ => rfl
+  | .cons _ _ kids, d => by simp [preorder, nodes, preorderL_length kids (d + 1)]
+theorem preorderL_length : ∀ (ts : List Tree) (d : Nat), (preorderL ts d).length = nodesL ts
+  | [], _ => rfl
+  | t :: ts, d => by simp [preorderL, nodesL, preorder_length t d, preorderL_length ts d]
+end
+
 /-! ### the loop of `skip_opt`, one iteration in closed form -/
 
 abbrev Stack := List (Option (Option Nat))
